@@ -112,6 +112,20 @@ def main() -> int:
             print(f"  SqlParam rule variant {variant}: {inv} {'refuted' if hit else 'NOT REFUTED'}")
             ok = ok and hit
         shutil.rmtree(d, ignore_errors=True)
+    # ---- Apalache: the inductive invariant of PoolAbs.tla holds, and is not inductive once the worker guard is removed
+    from . import apalache
+
+    if apalache.available():
+        obs = apalache.inductive("PoolAbs", cinit="ConstInit", init="Init", ind_init="IndInit", ind_inv="IndInv", goal="WorkerBound")
+        print(f"apalache {'ok  ' if all(o['ok'] for o in obs) else 'FAIL'} PoolAbs: " + ", ".join(f"{o['obligation']} {o['wall_s']}s" for o in obs))
+        ok = ok and all(o["ok"] for o in obs)
+        bug = apalache.inductive("PoolAbs", cinit="ConstInit", init="Init", ind_init="IndInit", ind_inv="IndInv", goal="WorkerBound",
+                                 mutate=lambda t: t.replace("/\\ next < N /\\ Cardinality(running) < W", "/\\ next < N"))
+        hit = bug[1]["error"]
+        print(f"  PoolAbs without the worker guard: {'not inductive (counterexample)' if hit else 'NOT REFUTED'}")
+        ok = ok and hit
+    else:
+        print("apalache-mc not available: PoolAbs.tla skipped")
     # ---- Prefilter.tla without its proviso: the one-scan design must be refuted (a fix that creates a later codemod's trigger)
     d = scratch("prebug")
     shutil.copy(spec / "Prefilter.tla", d / "Prefilter.tla")
